@@ -349,14 +349,29 @@ KeepAlive(x) ==
   /\ act' = [name |-> "KeepAlive", x |-> x, obs |-> Obs("ok", <<>>, <<>>)]
   /\ UNCHANGED <<grp, inp, owner, ss, closed, nh, pull, clock, nticks>>
 
+\* a second ANNOUNCE, or a DESCRIBE, on the command connection of an accepted RTSP publisher: a connection is one
+\* publisher or one player, once; the request is refused and the connection ends, which is the departure of the
+\* publisher it carried (reported like any other departure)
+Misuse(x) ==
+  /\ DescribeOn /\ x \in RtspPubs /\ ss[x] = "in" /\ grp
+  /\ ss' = [ss EXCEPT ![x] = "gone"]
+  /\ nh' = [nh EXCEPT ![x] = "stopped"]
+  /\ IF inp = x THEN inp' = "" /\ owner' = "" ELSE UNCHANGED <<inp, owner>>
+  /\ \E how \in {"announce", "describe"} :
+       act' = [name |-> "Misuse", x |-> x, how |-> how,
+               obs |-> Obs("ok", <<N("pub_stop", x)>>, IF inp = x THEN DelInEv ELSE <<>>)]
+  /\ UNCHANGED <<grp, closed, pull, clock, nticks>>
+
 \* an RTSP player asks for the description of the stream (and hangs up again): it is answered at once iff an input
 \* that has been described is attached - here: an RTSP publisher (its ANNOUNCE carried the description); for the other
 \* inputs of this model no description exists (the remuxer's analysis has not seen 16 messages), and the description
 \* of an input that is gone must not be handed out
 Describe ==
   /\ DescribeOn /\ ~PullEnabled
-  /\ act' = [name |-> "Describe", obs |-> Obs(IF inp \in RtspPubs THEN "sdp" ELSE "wait",
-                                              <<N("sub_start", "player"), N("sub_stop", "player")>>, <<>>)]   \* (lal counts it as a subscriber from DESCRIBE on)
+  /\ \E k \in {1, 2} :      \* k = 2: the player repeats the DESCRIBE on its connection (refused; still one session, one pair)
+       act' = [name |-> "Describe", k |-> k,
+               obs |-> Obs(IF inp \in RtspPubs THEN "sdp" ELSE "wait",
+                           <<N("sub_start", "player"), N("sub_stop", "player")>>, <<>>)]   \* (lal counts it as a subscriber from DESCRIBE on)
   /\ grp' = TRUE     \* (the group is created for the asking session)
   /\ UNCHANGED <<inp, owner, ss, closed, nh, pull, clock, nticks>>
 
@@ -366,7 +381,7 @@ Step == \/ \E x \in NetPubs : NewPub(x) \/ DelPub(x)
         \/ \E x \in Subs : NewSub(x) \/ DelSub(x)
         \/ \E x \in Sessions : Kick(x)
         \/ \E x \in Pubs : Probe(x)
-        \/ \E x \in RtspPubs : KeepAlive(x)
+        \/ \E x \in RtspPubs : KeepAlive(x) \/ Misuse(x)
         \/ Describe
         \/ Tick \/ StartPull \/ StopPull \/ KickPull \/ PullOk \/ PullFail \/ PullEnd \/ Advance
 \* (one conjunction, so that TLC's simulator chooses uniformly among successor states instead of
